@@ -38,7 +38,7 @@ var c16Nums = []string{"0", "-0", "1", "-1", "2", "0.4", "0.5", "0.6", "1.5", "2
 	"9007199254740992", "9007199254740993", "9223372036854775807", "9223372036854775808", "-9223372036854775808", "-9223372036854775809", "9223372036854774784", "9223372036854775296", "-9223372036854774784",
 	"1e18", "1e19", "1e308", "-1e308", "5e-324", "1e-7", "123456789012345678901234567890", "1e400", "-1e400", "1e-400"}
 
-var c16Other = []string{`null`, `true`, `false`, `""`, `"abc"`, `"true"`, `"false"`, `"t"`, `"F"`, `"yes"`, `"NO"`, `"on"`, `"off"`, `"1"`, `"0"`, `" 1"`, `"1 "`, `"+1"`, `"1e2"`, `"0x10"`, `"NaN"`, `"Infinity"`, `"-inf"`, `"1_0"`, `"tr"`, `"o"`,
+var c16Other = []string{`null`, `true`, `false`, `""`, `"abc"`, `"true"`, `"false"`, `"t"`, `"F"`, `"yes"`, `"NO"`, `"on"`, `"off"`, `"1"`, `"0"`, `" 1"`, `"1 "`, `"+1"`, `"1e2"`, `"0x10"`, `"NaN"`, `"Infinity"`, `"-inf"`, `"1_0"`, `"tr"`, `"o"`, `"tree"`, `"truE"`, `"trux"`, `"falsy"`, `"fall"`, `"yess"`, `"nope"`, `"nn"`, `"onn"`, `"offf"`, `"11"`, `"00"`, `"01"`, `"2"`, `"-1"`, `"truee"`, `"ye s"`, `"ok"`,
 	`[]`, `[1]`, `[1,"2",[3]]`, `{}`, `{"a":1}`, `"2023-08-15"`, `"12:34:56"`, `"2023-08-15T12:34:56+01:00"`}
 
 var c16Methods = []string{"type", "size", "double", "number", "decimal", "integer", "bigint", "boolean", "string", "abs", "floor", "ceiling", "keyvalue"}
